@@ -21,12 +21,16 @@ CONSTANTS MaxLen,        \* items per document
           Kinds,         \* container kinds
           Incs,          \* include shapes: set of <<off, Ls>>
           WithPara,      \* BOOLEAN: paragraphs in the alphabet
+          WithNestedInc, \* BOOLEAN: includes nested in included files in the alphabet
           DevPruneOff,   \* mutant switch: deeper sections pruned with <= L+1 instead of <= L
           DevMatchTitles \* as-built (open finding): in the body of a directive that parses with match_titles=True
                          \* (Sphinx's only / nested_parse_with_titles; kind "titles") a heading DOES open a section,
                          \* attached to the open sections outside the directive; the level map is restored at its end
 
 IncsSmall == {<<0, <<1>>>>, <<1, <<1, 2>>>>, <<2, <<2, 1>>>>}
+(* an included file that itself includes a file: <<outer offset, inner offset, level of the inner file's heading, level of a   *)
+(* heading of the outer file after the inner include>>                                                                        *)
+IncsNested == {<<1, 0, 1, 2>>, <<2, 1, 1, 1>>, <<0, 2, 2, 1>>, <<1, 1, 2, 3>>}
 IncsMore  == IncsSmall \cup {<<1, <<3>>>>, <<0, <<2, 2>>>>, <<3, <<1, 1>>>>}
 NoIncs    == {}
 AllKinds  == {"quote", "item", "note"}
@@ -35,6 +39,7 @@ TitleKinds == {"quote", "note", "titles"}
 Items == {<<"h", L>> : L \in Levels}
          \cup {<<"c", k, L>> : k \in Kinds, L \in CLevels}
          \cup {<<"inc", i[1], i[2]>> : i \in Incs}
+         \cup (IF WithNestedInc THEN {<<"incn", i[1], i[2], i[3], i[4]>> : i \in IncsNested} ELSE {})
          \cup (IF WithPara THEN {<<"p">>} ELSE {})
 
 RECURSIVE Flatten(_)
@@ -45,7 +50,8 @@ Flatten(its) ==
           [] it[1] = "p"   -> << <<"p">> >>
           [] it[1] = "c"   -> << <<"open", it[2]>>, <<"h", it[3]>>, <<"close">> >>
           [] it[1] = "inc" -> << <<"enter", it[2]>> >> \o [x \in 1..Len(it[3]) |-> <<"h", it[3][x]>>]
-                              \o << <<"exit">> >>)
+                              \o << <<"exit">> >>
+          [] it[1] = "incn" -> << <<"enter", it[2]>>, <<"enter", it[3]>>, <<"h", it[4]>>, <<"exit">>, <<"h", it[5]>>, <<"exit">> >>)
        \o Flatten(Tail(its))
 
 VARIABLES items, ev, pos, open, hoff, cur, saved, res, warns
@@ -118,10 +124,14 @@ Done == pos > Len(ev)
 
 (************************************ S ************************************************)
 (* effective level of micro event n if it is a document-level heading, else 0 *)
-RECURSIVE OffAt(_), DepthAt(_)
-OffAt(n) == IF n = 0 THEN 0
-            ELSE IF ev[n][1] = "enter" THEN ev[n][2]
-            ELSE IF ev[n][1] = "exit" THEN 0 ELSE OffAt(n - 1)
+RECURSIVE OffStack(_), DepthAt(_)
+(* the offsets of the include directives that are open at micro event n, outermost first: a heading is shifted by the *)
+(* offset of ITS OWN include directive (the innermost one); leaving an include returns to the enclosing one's         *)
+OffStack(n) == IF n = 0 THEN <<>>
+               ELSE IF ev[n][1] = "enter" THEN Append(OffStack(n - 1), ev[n][2])
+               ELSE IF ev[n][1] = "exit" THEN SubSeq(OffStack(n - 1), 1, Len(OffStack(n - 1)) - 1)
+               ELSE OffStack(n - 1)
+OffAt(n) == LET st == OffStack(n) IN IF st = <<>> THEN 0 ELSE st[Len(st)]
 DepthAt(n) == IF n = 0 THEN 0
               ELSE IF ev[n][1] = "open" THEN DepthAt(n - 1) + 1
               ELSE IF ev[n][1] = "close" THEN DepthAt(n - 1) - 1 ELSE DepthAt(n - 1)
